@@ -507,15 +507,15 @@ def _run_psf(case):
 
 
 # ---------------------------------------------------------------- star finders
-def _finder_obj(kind):
+def _finder_obj(kind, brightest=None):
     from photutils.detection import DAOStarFinder, IRAFStarFinder, StarFinder
     if kind == 'dao':
-        return DAOStarFinder(5.0, 2.6)
+        return DAOStarFinder(5.0, 2.6, brightest=brightest)
     if kind == 'iraf':
-        return IRAFStarFinder(5.0, 2.6)
+        return IRAFStarFinder(5.0, 2.6, brightest=brightest)
     yy, xx = np.mgrid[-3:4, -3:4]
     kern = 2.5 * np.exp(-(xx ** 2 + yy ** 2) / (2 * 1.1 ** 2))
-    return StarFinder(5.0, kern)
+    return StarFinder(5.0, kern, brightest=brightest)
 
 
 def _finder_call(obj, req):
@@ -532,11 +532,11 @@ def _finder_call(obj, req):
     return {c: np.array(t[c], dtype=float) for c in t.colnames}
 
 
-def _finder_check(kind, hist):
-    obj = _finder_obj(kind)
+def _finder_check(kind, hist, brightest=None):
+    obj = _finder_obj(kind, brightest)
     for k, req in enumerate(hist):
         got = _finder_call(obj, req)
-        exp = _finder_call(_finder_obj(kind), req)
+        exp = _finder_call(_finder_obj(kind, brightest), req)
         if (got is None) != (exp is None):
             return f'call {k} ({req}) None-ness differs from fresh'
         if got is None:
@@ -557,15 +557,19 @@ def _run_finder(case):
         kind = ctx.choice('finder', ['dao', 'iraf', 'star'])
         hist = [ctx.choice(f'r{k}', ['A', 'Am', 'B', 'Bm'])
                 for k in range(case['len'])]
+        # brightest=3: the scenes hold 2..5 detectable sources, so the
+        # selection is active in some calls of a history and idle in others
+        br = ctx.choice('brightest', [None, 3])
         ctx.stats.obligations += 1
         cnt['n'] += 1
-        msg = _finder_check(kind, hist)
+        msg = _finder_check(kind, hist, br)
         if msg is None:
             ctx.stats.unsat += 1
         else:
             ctx.stats.sat += 1
             ctx.find(f'finder:{kind}:{msg.split()[0]}', msg, ctx.witness(),
-                     params=dict(kind='finder', finder=kind, hist=hist))
+                     params=dict(kind='finder', finder=kind, hist=hist,
+                                 brightest=br))
         if len(samples) < 2:
             samples.append(dict(finder=kind, hist=hist))
 
@@ -631,5 +635,5 @@ def replay(f):
     elif k == 'psf':
         msg = _psf_check(p['obj'], p['hist'])
     else:
-        msg = _finder_check(p['finder'], p['hist'])
+        msg = _finder_check(p['finder'], p['hist'], p.get('brightest'))
     return msg is not None, str(msg)
